@@ -194,6 +194,13 @@ def replay(cex):
     d = tempfile.mkdtemp(prefix='vf_c10r_')
     try:
         path = os.path.join(d, 'i.txt')
+        # the path first holds a different instance (a user who edits a file and solves the same path again)
+        with open(path, 'w') as f:
+            f.write('1 1\n1: 1\n1: 0: 1: 1\n')
+        try:
+            ns.solver.Solver(['-f', path, '-na', '2'])
+        except Exception:  # noqa
+            pass
         with open(path, 'w') as f:
             f.write(text)
         try:
